@@ -306,6 +306,9 @@ func runOne(st Stim) Trace {
 				u.inject(memnet.Build(message.Acknowledgement, int(codes.Empty), mid, nil, nil, nil))
 			case "rst":
 				u.inject(memnet.Build(message.Reset, int(codes.Empty), mid, nil, nil, nil))
+			case "cancel": // the caller gives up, and its call returns, while the sweep holds the entry
+				cancel()
+				hooks.WaitFor(conns.WD, func() bool { poll(); return ret != "none" })
 			default:
 				u.inject(memnet.Build(message.Acknowledgement, int(codes.Content), mid, tok, nil, []byte("P")))
 			}
